@@ -19,7 +19,12 @@ def run(chk, replay=None):
             for kind in kinds:
                 cases.append((n, k, kind))
     cases += [(2, -1, 'cluster500'), (2, -1, 'cluster_badjson'), (3, -1, 'success')]
-    for n, k, kind in cases:
+    # the temporary directory named in other spellings (trailing separator as on macOS, doubled separator, '.' and '..' components)
+    forms = [None] * len(cases)
+    for fi, form in enumerate(('slash', 'double', 'dot', 'dotdot', 'dotslash')):
+        for n, k, kind in ((3, 1, '500'), (3, 2, 'cutmid'), (3, -1, 'success'), (2, 1, 'notgzip'), (2, 0, 'outdir')):
+            cases.append((n, k, kind)); forms.append(form)
+    for (n, k, kind), form in zip(cases, forms):
         hosts = ['h%d.ex.net:27017' % i for i in range(n)]
         hw = []
         for i in range(n):
@@ -42,9 +47,9 @@ def run(chk, replay=None):
         out_name = 'out.log'
         if kind == 'outdir': out_name = 'o.log'
         # unwritable output path for file k: make "<out>.<k>" a directory beforehand is not possible from outside the run dir; use a path whose .k is a directory via extra prep
-        r = atlaslib.run_cli(world, out_name=out_name) if kind != 'outdir' else run_outdir(world, k)
-        chk.count(); chk.traces += 1; chk.nontriv((n, k, kind)); chk.dist('fault_' + kind)
-        case = {'hosts': n, 'failing_host': k, 'fault': kind, 'rc': r['rc'], 'stderr': r['stderr'].decode('utf-8', 'replace')[-300:], 'tmp_left': sorted(r['tmp'])}
+        r = atlaslib.run_cli(world, out_name=out_name, tmpdir_form=form) if kind != 'outdir' else run_outdir(world, k, form)
+        chk.count(); chk.traces += 1; chk.nontriv((n, k, kind, form)); chk.dist('fault_' + kind)
+        case = {'hosts': n, 'failing_host': k, 'fault': kind, 'TMPDIR_spelling': form or 'clean', 'rc': r['rc'], 'stderr': r['stderr'].decode('utf-8', 'replace')[-300:], 'tmp_left': sorted(r['tmp'])}
         # model
         if kind not in ('outdir', 'cluster_badjson', 'toolong', 'notgzip', 'empty200', 'onebyte', 'gzheader', 'emptygz', '204', '429'):
             logs = []
@@ -91,13 +96,13 @@ def run(chk, replay=None):
     chk.sample({'hosts': 3, 'failing_host': 1, 'fault': 'body cut mid-stream'})
     chk.assumptions += ["a process killed by a signal between download and cleanup is outside the model (no exit path of the program)", "HTTP / TLS behaviour is the library's"]
 
-def run_outdir(world, k):
+def run_outdir(world, k, form=None):
     """unwritable output: <out>.<k> already exists as a directory"""
     import tempfile, subprocess, shutil, time, json as _json
     # reuse run_cli but pre-create the directory through a wrapper working dir: run_cli creates 'work'; emulate by giving an output path inside a prepared dir
     d = tempfile.mkdtemp(prefix='c17out_')
     try:
         os.mkdir(os.path.join(d, 'o.log.%d' % k))
-        return atlaslib.run_cli(world, out_name=os.path.join(d, 'o.log'))
+        return atlaslib.run_cli(world, out_name=os.path.join(d, 'o.log'), tmpdir_form=form)
     finally:
         shutil.rmtree(d, ignore_errors=True)
